@@ -20,7 +20,8 @@ static void *r_malloc(size_t n) { return __real_malloc ? __real_malloc(n) : mall
 static void  r_free(void *p)    { if (__real_free) __real_free(p); else free(p); }
 
 /* ------------------------------------------------------------------ sp_ienv */
-long vrt_ienv[9] = {0, 8, 6, 100, 200, 100, -20, -20, -10};
+/* generous fill estimates (multiples of nnz(A)) so that small dense-ish test matrices never run out by accident */
+long vrt_ienv[9] = {0, 8, 6, 100, 200, 100, -200, -200, -100};
 int_t sp_ienv(int_t ispec)
 {
     if (ispec >= 1 && ispec <= 8) return (int_t) vrt_ienv[ispec];
